@@ -537,3 +537,79 @@ def c16(tier):
     res.exhaustive = False
     res.assumptions = ["OS pipe capacity 64 KiB (Linux default)", "fakesat logs exactly the bytes it received"]
     return res.finish()
+
+
+# ----------------------------------------------------------------------------------------------------------------
+# C13 readers, C14 round trips
+# ----------------------------------------------------------------------------------------------------------------
+@check("C13")
+def c13(tier):
+    res = Result("C13", tier)
+    vlib.build_harness()
+    thorough = tier == "thorough"
+    maxl = 5 if thorough else 4
+    files = []
+    for fmt in ("iccma", "apx"):
+        cfgt = open(os.path.join(vlib.SPEC, "MCReader_%s.cfg" % fmt)).read().replace("MaxLines = 3", "MaxLines = %d" % maxl)
+        path, n = export_replay(res, "MCReader.tla", cfgt, "MCReader_" + fmt)
+        files.append(path)
+    allf = os.path.join(res.wd, "files.jsonl")
+    with open(allf, "w") as f:
+        for p in files:
+            f.write(open(p).read())
+    out = os.path.join(res.wd, "io.ndjson")
+    t = time.time()
+    vlib.vh(["io", "--files", allf, "--argstr", "yes", "--fuzz", 400000 if thorough else 60000, "--seed", seed(), "--out", out, "--threads", vlib.NCPU])
+    evs = [json.loads(l) for l in open(out)]
+    # segments of bounded size (every event is self-contained)
+    segs = [[{"ev": "reset"}] + evs[i:i + 20000] for i in range(0, len(evs), 20000)]
+    log("  RUN io: %d events %.1fs" % (len(evs), time.time() - t))
+    t1, st = vlib.judge("TraceIO.tla", segs, res.wd, "io", shards=8)
+    res.add_judge("io", t1, st, only_props={"C13"})
+    res.nontrivial = len(set((e["fmt"], json.dumps(e["lines"])) for e in evs if e["ev"] == "file" and len(e["lines"]) >= 3 and e["res"] == "ok")) + \
+        len(set((e["fmt"], e["origin"], e["len"], e["res"]) for e in evs if e["ev"] == "total"))
+    fe = [e for e in evs if e["ev"] == "file" and len(e["lines"]) >= 3]
+    res.samples = [fe[len(fe) // 3], fe[2 * len(fe) // 3], [e for e in evs if e["ev"] == "total"][7]]
+    res.rule = ("files = all sequences of <= %d lines over 18 (ICCMA) / 17 (Aspartix) line kinds exported by MCReader with the verdict of Reader.tla, "
+                "each concretised twice (LF; CRLF | no final newline | extra spaces); query-argument strings; seeded byte-level and token-level "
+                "corruption of well-formed files, raw random bytes and token soups (totality only); non-trivial = accepted file of >= 3 lines, "
+                "or a distinct (format, origin, length, outcome) fuzz case" % maxl)
+    res.exhaustive = False
+    res.extra["exhaustive_part"] = "all abstract files of <= %d lines per format" % maxl
+    res.assumptions = ["line kinds' concrete text as in harness/src/io.rs", "inputs on which the property is silent are classed 'unspecified' (totality only)"]
+    return res.finish()
+
+
+@check("C14")
+def c14(tier):
+    res = Result("C14", tier)
+    vlib.build_harness()
+    thorough = tier == "thorough"
+    res.add_mc(vlib.mc("MCStore.tla", cfg="MCStore.cfg", wd=res.wd, name="MCStore", timeout=3000))
+    out = os.path.join(res.wd, "rt.ndjson")
+    t = time.time()
+    vlib.vh(["store", "--walks", 2000 if thorough else 400, "--len", 120, "--rt", "yes", "--seed", seed(), "--out", out, "--threads", vlib.NCPU])
+    segs = vlib.segments(out, openers=("reset",))
+    segs = [s for s in segs if s[0].get("ty") == "string"]
+    # the judge needs the updates (to carry the abstract state) and the round-trip events, not the projections
+    slim = []
+    for s in segs:
+        slim.append([s[0]] + [({"ev": "x", "o": e["o"]} if e["ev"] == "u" else e) for e in s[1:]])
+    nrt = sum(1 for s in segs for e in s if e["ev"] == "rt")
+    log("  RUN store round trips: %d histories, %d write/read round trips %.1fs" % (len(segs), nrt, time.time() - t))
+    t1, st = vlib.judge("TraceStore.tla", slim, res.wd, "rt", shards=8)
+    res.add_judge("roundtrip", t1, st, only_props={"C14"})
+    out2 = os.path.join(res.wd, "resp.ndjson")
+    vlib.vh(["io", "--resp", 20000 if thorough else 3000, "--seed", seed(), "--out", out2])
+    evs = [json.loads(l) for l in open(out2)]
+    t1, st = vlib.judge("TraceIO.tla", [evs], res.wd, "resp")
+    res.add_judge("responses", t1, st, only_props={"C14"})
+    res.nontrivial = len(set(json.dumps(e["back"]) for s in segs for e in s if e["ev"] == "rt" and len(e["back"]["att"]) >= 2)) + \
+        len(set((e["writer"], json.dumps(e["labels"])) for e in evs if e["ev"] == "resp"))
+    res.samples = [next(e for s in segs for e in s if e["ev"] == "rt" and len(e["back"]["att"]) >= 2), evs[5], evs[-3]]
+    res.rule = ("frameworks = states reached by seeded random update histories over 3-6 string labels (tombstoned arguments and attacks present), written by "
+                "AspartixWriter::write_framework and read back by AspartixReader, compared by TLC with the abstract state it carried itself (Store.tla); "
+                "responses = random extensions (incl. empty) over usize and string labels through both writers, statuses, no-extension; "
+                "non-trivial = distinct read-back framework with >= 2 attacks, or distinct (writer, extension)")
+    res.exhaustive = False
+    return res.finish()
